@@ -1692,6 +1692,10 @@ pub struct ConnectionH2<Front: SocketHandler> {
     pub encoder: loona_hpack::Encoder<'static>,
     pub expect_read: Option<(H2StreamId, usize)>,
     pub expect_write: Option<H2StreamId>,
+    /// Control frames are waiting in `zero` for the stream frame designated by
+    /// `expect_write` to be written out completely (see
+    /// [`Self::schedule_zero_flush`]).
+    pub zero_flush_deferred: bool,
     pub last_stream_id: StreamId,
     pub local_settings: H2Settings,
     pub peer_settings: H2Settings,
@@ -1910,6 +1914,7 @@ impl<Front: SocketHandler> ConnectionH2<Front> {
             encoder: loona_hpack::Encoder::new(),
             expect_read,
             expect_write: None,
+            zero_flush_deferred: false,
             last_stream_id: 0,
             local_settings,
             peer_settings: H2Settings::default(),
@@ -2832,6 +2837,18 @@ impl<Front: SocketHandler> ConnectionH2<Front> {
             }
         }
 
+        // Frame boundary: control frames that had to wait for the stream
+        // resumed above go out before any other stream data.
+        self.resume_deferred_zero_flush();
+        if let Some(H2StreamId::Zero) = self.expect_write {
+            if self.flush_zero_to_socket() {
+                self.ensure_tls_flushed();
+                return MuxResult::Continue;
+            }
+            self.readiness.interest.insert(Ready::READABLE);
+            self.expect_write = None;
+        }
+
         self.gauge_connection_state();
 
         let scheme: &'static [u8] = if context.listener.borrow().protocol() == Protocol::HTTPS {
@@ -3586,6 +3603,8 @@ impl<Front: SocketHandler> ConnectionH2<Front> {
                 return Some(self.goaway(H2Error::SettingsTimeout));
             }
         }
+
+        self.resume_deferred_zero_flush();
 
         // Stage — resume zero-buffer flush.
         // If a previous write was partial, finish it before serialising any
@@ -4614,7 +4633,7 @@ impl<Front: SocketHandler> ConnectionH2<Front> {
                 kawa.storage.fill(size);
                 incr!(names::h2::FRAMES_TX_GOAWAY);
                 self.state = H2State::GoAway;
-                self.expect_write = Some(H2StreamId::Zero);
+                self.schedule_zero_flush();
                 self.readiness.interest = Ready::WRITABLE | Ready::HUP | Ready::ERROR;
                 self.readiness.signal_pending_write();
                 MuxResult::Continue
@@ -4658,7 +4677,9 @@ impl<Front: SocketHandler> ConnectionH2<Front> {
         // data during the drain window opened by the initial GOAWAY. Only
         // the final GOAWAY (via `goaway()`) removes READABLE.
         let kawa = &mut self.zero;
-        kawa.storage.clear();
+        if !self.zero_flush_deferred {
+            kawa.storage.clear();
+        }
         debug!(
             "{} GOAWAY (graceful, initial): last_stream_id=0x7FFFFFFF",
             log_context!(self)
@@ -4679,7 +4700,7 @@ impl<Front: SocketHandler> ConnectionH2<Front> {
                 // Keep READABLE so in-flight request bodies can still be received
                 // during the drain window. Only remove READABLE in the final GOAWAY
                 // (via `goaway()`).
-                self.expect_write = Some(H2StreamId::Zero);
+                self.schedule_zero_flush();
                 self.readiness.arm_writable();
                 MuxResult::Continue
             }
@@ -4754,6 +4775,35 @@ impl<Front: SocketHandler> ConnectionH2<Front> {
         L: ListenerHandler + L7ListenerHandler,
     {
         self.has_pending_write() || any_stream_has_pending_back(&self.streams, &context.streams)
+    }
+
+    /// Schedule the control frame(s) just serialized into `self.zero`.
+    ///
+    /// The zero buffer is flushed ahead of any stream data. That is only
+    /// correct at a frame boundary: while `expect_write` designates a stream,
+    /// part of one of its frames is already on the wire and the next bytes the
+    /// peer reads belong to that frame. Writing a SETTINGS ACK, a PING reply
+    /// or a GOAWAY now would put it inside the DATA payload and shift every
+    /// following frame. In that case the flush waits until the stream's
+    /// pending output is written (`write_streams`). The final GOAWAY of
+    /// [`Self::goaway`] is then never sent: the GoAway state writes no more
+    /// stream data, so the connection closes on the truncated frame instead of
+    /// a corrupted one.
+    fn schedule_zero_flush(&mut self) {
+        if matches!(self.expect_write, Some(H2StreamId::Other { .. })) {
+            self.zero_flush_deferred = true;
+        } else {
+            self.expect_write = Some(H2StreamId::Zero);
+        }
+    }
+
+    /// Called at a frame boundary: hand a deferred zero buffer over to the
+    /// regular zero-buffer flush.
+    fn resume_deferred_zero_flush(&mut self) {
+        if self.zero_flush_deferred && self.expect_write.is_none() {
+            self.zero_flush_deferred = false;
+            self.expect_write = Some(H2StreamId::Zero);
+        }
     }
 
     /// Flush the zero buffer to the socket, counting bytes as connection overhead.
@@ -5795,7 +5845,7 @@ impl<Front: SocketHandler> ConnectionH2<Front> {
 
         self.readiness.interest.insert(Ready::WRITABLE);
         self.readiness.interest.remove(Ready::READABLE);
-        self.expect_write = Some(H2StreamId::Zero);
+        self.schedule_zero_flush();
         self.readiness.signal_pending_write();
         MuxResult::Continue
     }
@@ -5852,7 +5902,7 @@ impl<Front: SocketHandler> ConnectionH2<Front> {
         };
         self.readiness.interest.insert(Ready::WRITABLE);
         self.readiness.interest.remove(Ready::READABLE);
-        self.expect_write = Some(H2StreamId::Zero);
+        self.schedule_zero_flush();
         self.readiness.signal_pending_write();
         MuxResult::Continue
     }
